@@ -179,6 +179,9 @@ thread_local! {
 pub fn install_quiet_panic_hook() {
     std::panic::set_hook(Box::new(|info| {
         let loc = info.location().map(|l| format!("{}:{}", l.file(), l.line())).unwrap_or_default();
+        if std::env::var_os("GVH_PANIC_TRACE").is_some() {
+            eprintln!("panic: {info}");
+        }
         LAST_PANIC_LOC.with(|c| *c.borrow_mut() = loc);
     }));
 }
